@@ -111,6 +111,9 @@ func c06Gen(rng *verifsim.RNG, idx int, tier string) *Plan {
 		p.Class += "+latency"
 	}
 	p.Horizon = int64(horizon)
+	if rng.Bool(0.25) {
+		secondInterface(rng, p)
+	}
 	return p
 }
 
@@ -157,7 +160,10 @@ func c06Oracle(info *runInfo, res *verifsim.Result) {
 			prev = w
 		}
 		// Every solicitation from :: must be served by a multicast RA within 3 s.
-		unicastOnly := info.cfgs[0].Interfaces[0].UnicastOnly
+		unicastOnly := false
+		if s := info.plan.Nodes[0].Config.ifaceSpecFor(g.ifn); s != nil {
+			unicastOnly = s.UnicastOnly
+		}
 		for _, r := range g.rxs {
 			if unicastOnly || r.hop != 255 || !r.src.IsUnspecified() {
 				continue
